@@ -381,7 +381,7 @@ where
             let exponent = -(diff * diff) / (two * var);
             lp += exponent;
         }
-        lp += -d * T::from(0.5).unwrap() * (var * T::from(PI).unwrap() * self.std * self.std).ln();
+        lp += -d * T::from(0.5).unwrap() * (two * T::from(PI).unwrap() * var).ln();
         lp
     }
 
